@@ -27,6 +27,50 @@ impl PanicInfo {
     }
 }
 
+/// First panic raised inside the subject's own source files (path contains `/repo/`) while no
+/// `catch` was armed on that thread, with the case that thread had published.
+static SUBJECT_PANIC: std::sync::Mutex<Option<(PanicInfo, Option<String>)>> = std::sync::Mutex::new(None);
+
+/// A subject panic that escaped every `catch` of the driver: not a bug of the harness but a crash of
+/// the code under test in the middle of a check. The driver cannot go on; the caller turns it into a
+/// VIOLATION (the property's operations could not even be carried out) instead of a machinery error.
+pub fn escaped_subject_panic() -> Option<(PanicInfo, Option<String>)> {
+    SUBJECT_PANIC.lock().ok().and_then(|g| g.clone())
+}
+
+/// Report an escaped subject panic as a violation of `property` and end the process with exit 1.
+pub fn report_escaped_subject_panic(property: &str) -> ! {
+    let (p, case) = escaped_subject_panic().expect("no escaped subject panic recorded");
+    let key = format!("panic/{}", p.file());
+    let dir = crate::verif_root().join("replays").join(property);
+    let _ = std::fs::create_dir_all(&dir);
+    let fname: String = key.chars().map(|c| if c.is_ascii_alphanumeric() || c == '-' || c == '.' { c } else { '_' }).collect();
+    let path = dir.join(format!("{}.replay", fname));
+    let line = case.unwrap_or_else(|| "# (the driver had not published a case line at this point)".to_string());
+    let _ = std::fs::write(&path, format!("{}\n# property={} key={}\n# the code under test panicked at {}: {}\n# (outside the driver's panic monitor: the check stopped at this case)\n", line, property, key, p.site(), p.msg.replace('\n', " | ")));
+    // the run did not complete: replace the evidence of an earlier run by a statement of what happened
+    let args: Vec<String> = std::env::args().collect();
+    let thorough = args.windows(2).any(|w| w[0] == "--tier" && w[1] == "thorough") || (std::env::var("VERIF_TIER").as_deref() == Ok("thorough") && !args.iter().any(|a| a == "--tier"));
+    if !args.iter().any(|a| a == "--replay") {
+        let mut cov = crate::json::Json::obj();
+        cov.set("explanation", format!("the run was aborted by a panic of the code under test at {} ({}) outside the driver's panic monitor; nothing is claimed for this run", p.site(), p.msg.lines().next().unwrap_or("")));
+        let mut ev = crate::json::Json::obj();
+        ev.set("property_id", property);
+        ev.set("tier", if thorough { "thorough" } else { "quick" });
+        ev.set("seed", std::env::var("VERIF_SEED").ok().and_then(|s| s.parse::<i64>().ok()).unwrap_or(0));
+        ev.set("level", "other");
+        ev.set("coverage", cov);
+        ev.set("wall_s", 0.0);
+        ev.set("violations", 1i64);
+        let d = crate::verif_root().join("evidence");
+        let _ = std::fs::create_dir_all(&d);
+        let _ = std::fs::write(d.join(format!("{}.json", property)), ev.render());
+    }
+    println!("VIOLATION property={} replay={}", property, path.display());
+    println!("  key={} the code under test panicked at {}: {} (the check stopped at this case)", key, p.site(), p.msg.lines().next().unwrap_or(""));
+    std::process::exit(1)
+}
+
 thread_local! {
     static LAST: RefCell<Option<PanicInfo>> = RefCell::new(None);
     /// > 0 while inside `catch` on this thread: panics are expected and recorded silently.
@@ -48,8 +92,18 @@ pub fn install_silent_hook() {
             .map(|l| format!("{}:{}", l.file(), l.line()))
             .unwrap_or_else(|| "<unknown>".into());
         if ARMED.with(|a| a.get()) == 0 {
-            // a panic outside `catch` is a bug of the harness itself: say so loudly
-            eprintln!("MACHINERY-ERROR harness panic at {}: {}", loc, msg);
+            if loc.contains("/repo/") {
+                // the subject crashed where the driver did not monitor for it: remember the first one
+                if let Ok(mut g) = SUBJECT_PANIC.lock() {
+                    if g.is_none() {
+                        *g = Some((PanicInfo { msg: msg.clone(), loc: loc.clone() }, crate::watch::current_case()));
+                    }
+                }
+                eprintln!("subject panic outside the panic monitor at {}: {}", loc, msg);
+            } else {
+                // a panic outside `catch` in harness code is a bug of the harness itself: say so loudly
+                eprintln!("MACHINERY-ERROR harness panic at {}: {}", loc, msg);
+            }
         }
         LAST.with(|l| *l.borrow_mut() = Some(PanicInfo { msg, loc }));
     }));
